@@ -197,3 +197,81 @@ func isFragmentMutexOp2(in ssa.Instruction) (string, bool) {
 	}
 	return isFragmentMutexOp(c)
 }
+
+// configSanitizeFillsOnly: Sanitize completes a configuration: it may give a field a value
+// only where that field was found unset (a test of the same field guards the store). A
+// store to a field under a test of some other field rewrites what the user configured —
+// for example switching ReadRepair off because ReplicaCount is 1, although read repair also
+// brings the owner's own copy up to date from previous owners.
+func configSanitizeFillsOnly(r *core.Run, rule string) {
+	fn := r.Need(rule, "config.(*Config).Sanitize")
+	if fn == nil {
+		return
+	}
+	f := fn.SSA
+	recv := ssa.Value(nil)
+	if len(f.Params) > 0 {
+		recv = f.Params[0]
+	}
+	cnt := 0
+	n := counter{}
+	core.Instrs(f, func(in ssa.Instruction) {
+		st, ok := in.(*ssa.Store)
+		if !ok || in.Parent() != f {
+			return
+		}
+		fa, isFA := st.Addr.(*ssa.FieldAddr)
+		if !isFA || fa.X != recv {
+			return
+		}
+		field := core.LastField(fa)
+		cnt++
+		guarded := false
+		var mentions bool
+		var walk func(v ssa.Value, d int)
+		walk = func(v ssa.Value, d int) {
+			if d > 6 || v == nil {
+				return
+			}
+			if core.LastField(v) == field {
+				mentions = true
+			}
+			switch x := v.(type) {
+			case *ssa.BinOp:
+				walk(x.X, d+1)
+				walk(x.Y, d+1)
+			case *ssa.UnOp:
+				walk(x.X, d+1)
+			case *ssa.Call:
+				for _, a := range x.Call.Args {
+					walk(a, d+1)
+				}
+			case *ssa.Convert:
+				walk(x.X, d+1)
+			case *ssa.Extract:
+				walk(x.Tuple, d+1)
+			case *ssa.Phi:
+				for _, e := range x.Edges {
+					walk(e, d+1)
+				}
+			}
+		}
+		for _, cd := range core.Conditions(in.Block()) {
+			mentions = false
+			walk(cd.Val, 0)
+			if mentions {
+				guarded = true
+			}
+		}
+		// or the new value is computed from the field's own value (c.BindAddr = resolve(c.BindAddr))
+		mentions = false
+		walk(st.Val, 0)
+		if mentions {
+			guarded = true
+		}
+		r.Check(guarded, rule, n.next(fn.Name+" sets "+field), site(r, instrPos(in)),
+			"set only under a test of the field itself (an unset value is filled in) or from its own value",
+			"Sanitize assigns "+field+" without having tested "+field+" itself: a value the user configured is silently replaced because of some other setting")
+	})
+	r.Floor(rule, cnt, 10)
+}
